@@ -523,6 +523,58 @@ theorem renderNodeSrc_eq (fuel : Nat) (r : Inv) (nmeta : MetaM) (src : ClassSrc)
         | error e => rfl
         | ok x => obtain ⟨seen, root⟩ := x; rfl
 
+theorem nodePrefix_ok {r : Inv} {nmeta : MetaM} {src : ClassSrc} {self : NodeM} {bp : Mapping}
+    (h : nodePrefix r nmeta src = .ok (self, bp)) :
+    ∃ rc, NodeM.ofSrc none src = .ok self ∧ nmeta.asReclass r.cfg = .ok rc ∧
+      ({} : Mapping).insert (.str Extracted.reclassKey.toList) rc.toValue = .ok bp := by
+  unfold nodePrefix at h
+  cases h1 : NodeM.ofSrc none src with
+  | error e => simp [h1] at h
+  | ok self' =>
+    simp only [h1] at h
+    cases h2 : nmeta.asReclass r.cfg with
+    | error e => simp [h2] at h
+    | ok rc =>
+      simp only [h2] at h
+      cases h3 : ({} : Mapping).insert (.str Extracted.reclassKey.toList) rc.toValue with
+      | error e => simp [h3] at h
+      | ok bp' =>
+        simp only [h3, Except.ok.injEq, Prod.mk.injEq] at h
+        obtain ⟨rfl, rfl⟩ := h
+        exact ⟨rc, rfl, rfl, h3⟩
+
+theorem asReclass_nofuel (m : MetaM) (cfg : NodeCfg) : m.asReclass cfg ≠ .error .fuel := by
+  intro h
+  by_cases hne : m.parts = []
+  · unfold MetaM.asReclass at h; rw [hne] at h; simp at h
+  · rw [asReclass_eq cfg hne] at h; simp at h
+
+/-- The stages before the walk never report `fuel`. -/
+theorem nodePrefix_nofuel (r : Inv) (nmeta : MetaM) (src : ClassSrc) :
+    nodePrefix r nmeta src ≠ .error .fuel := by
+  intro h
+  unfold nodePrefix at h
+  cases h1 : NodeM.ofSrc none src with
+  | error e => simp only [h1, Except.error.injEq] at h; exact ofSrc_nofuel none src (h ▸ h1)
+  | ok self =>
+    simp only [h1] at h
+    cases h2 : nmeta.asReclass r.cfg with
+    | error e => simp only [h2, Except.error.injEq] at h; exact asReclass_nofuel _ _ (h ▸ h2)
+    | ok rc =>
+      simp only [h2] at h
+      cases h3 : ({} : Mapping).insert (.str Extracted.reclassKey.toList) rc.toValue with
+      | error e =>
+        simp only [h3, Except.error.injEq] at h; subst h
+        exact insertImpl_nofuel _ _ _ _ _ h3
+      | ok bp => simp [h3] at h
+
+/-- The decoded node and the base node have `WFN` parameters. -/
+theorem nodePrefix_wfn {r : Inv} {nmeta : MetaM} {src : ClassSrc} {self : NodeM} {bp : Mapping}
+    (hs : SrcOK src) (h : nodePrefix r nmeta src = .ok (self, bp)) :
+    self.OK ∧ NodeM.OK { classes := self.classes, params := bp } := by
+  obtain ⟨rc, e1, e2, e3⟩ := nodePrefix_ok h
+  exact ⟨ofSrc_wfn hs e1, baseParams_wfn (asReclass_wfn e2) e3⟩
+
 theorem finishNode_fuel_error (nmeta : MetaM) (self : NodeM) :
     finishNode nmeta self (.error .fuel) = .error .fuel := rfl
 
@@ -599,42 +651,10 @@ theorem renderNodeSrc_settles_good {r : Inv} {U : List Str} {B : Nat} (hg : Good
     refine ⟨fun m _ => by simp only [renderNodeSrc_eq, hp], fun h => ?_⟩
     simp only [renderNodeSrc_eq, hp, Except.error.injEq] at h
     subst h
-    exfalso
-    unfold nodePrefix at hp
-    cases h1 : NodeM.ofSrc none src with
-    | error e => simp only [h1, Except.error.injEq] at hp; exact ofSrc_nofuel none src (hp ▸ h1)
-    | ok self =>
-      simp only [h1] at hp
-      cases h2 : nmeta.asReclass r.cfg with
-      | error e =>
-        simp only [h2, Except.error.injEq] at hp; subst hp
-        by_cases hne : nmeta.parts = []
-        · unfold MetaM.asReclass at h2; rw [hne] at h2; simp at h2
-        · rw [asReclass_eq r.cfg hne] at h2; simp at h2
-      | ok rc =>
-        simp only [h2] at hp
-        cases h3 : ({} : Mapping).insert (.str Extracted.reclassKey.toList) rc.toValue with
-        | error e =>
-          simp only [h3, Except.error.injEq] at hp; subst hp
-          exact insertImpl_nofuel _ _ _ _ _ h3
-        | ok bp => simp [h3] at hp
+    exact absurd hp (nodePrefix_nofuel r nmeta src)
   | ok x =>
     obtain ⟨self, bp⟩ := x
-    have hself : NodeM.ofSrc none src = .ok self := by
-      unfold nodePrefix at hp
-      cases h1 : NodeM.ofSrc none src with
-      | error e => simp [h1] at hp
-      | ok self' =>
-        simp only [h1] at hp
-        cases h2 : nmeta.asReclass r.cfg with
-        | error e => simp [h2] at hp
-        | ok rc =>
-          simp only [h2] at hp
-          cases h3 : ({} : Mapping).insert (.str Extracted.reclassKey.toList) rc.toValue with
-          | error e => simp [h3] at hp
-          | ok bp' =>
-            simp only [h3, Except.ok.injEq, Prod.mk.injEq] at hp
-            rw [hp.1]
+    obtain ⟨rc, hself, _, _⟩ := nodePrefix_ok hp
     have hgn := hs self hself
     have hbase : GoodNode r U B { classes := self.classes, params := bp } := by
       refine ⟨hgn.1, ?_⟩
@@ -648,6 +668,28 @@ theorem renderNodeSrc_settles_good {r : Inv} {U : List Str} {B : Nat} (hg : Good
       rcases finishNode_fuel h with h' | ⟨seen, root, fin, h1, h2, h3⟩
       · exact absurd h' hnf
       · exact ⟨self, bp, seen, root, fin, rfl, h1, h2, h3⟩
+
+/-- `renderNodeSrc` reports `Err.fuel` only if the walk ran out of its fuel, or the final
+`render_parameters` ran out of the evaluator's constant budget on the merged parameters, which
+are `WFN`. -/
+theorem renderNodeSrc_fuel_cases {fuel : Nat} {r : Inv} {nmeta : MetaM} {src : ClassSrc}
+    (hr : InvOK r) (hs : SrcOK src) (h : renderNodeSrc fuel r nmeta src = .error .fuel) :
+    (∃ self bp, nodePrefix r nmeta src = .ok (self, bp) ∧
+      renderImpl fuel r { classes := self.classes, params := bp } [] {} = .error .fuel) ∨
+    (∃ fin : NodeM, fin.OK ∧ renderParamsF defaultFuel fin.params = .error .fuel) := by
+  rw [renderNodeSrc_eq] at h
+  cases hp : nodePrefix r nmeta src with
+  | error e =>
+    simp only [hp, Except.error.injEq] at h
+    subst h
+    exact absurd hp (nodePrefix_nofuel r nmeta src)
+  | ok x =>
+    obtain ⟨self, bp⟩ := x
+    simp only [hp] at h
+    rcases finishNode_fuel h with h' | ⟨seen, root, fin, h1, h2, h3⟩
+    · exact Or.inl ⟨self, bp, rfl, h'⟩
+    · obtain ⟨hself, hbase⟩ := nodePrefix_wfn hs hp
+      exact Or.inr ⟨fin, mergeInto_wfn hself (renderImpl_wfn hr hbase nodeOK_empty h1) h2, h3⟩
 
 /-! ### Plain inventories: a syntactic condition -/
 
@@ -696,14 +738,14 @@ theorem plainFiles_plainInv {r : Inv} (hp : PlainFiles r) : PlainInv r := by
   obtain ⟨info, src, hf, ho⟩ := readClass_some h
   exact ofSrc_plain (hp.1 _ (findEntity_some_mem hf) src rfl) ho
 
-/-- For inventories with plain include entries the outcome of `renderNodeSrc` settles. -/
-theorem renderNodeSrc_settles_plain {r : Inv} (hp : PlainFiles r) {nmeta : MetaM} {src : ClassSrc}
-    (hs : PlainSrc src) :
+/-- For inventories with plain include entries the outcome of `renderNodeSrc` settles; it is
+`Err.fuel` only if the final `render_parameters` exhausted the evaluator's constant budget on the
+merged (`WFN`) parameters. -/
+theorem renderNodeSrc_settles_plain {r : Inv} (hr : InvOK r) (hp : PlainFiles r) {nmeta : MetaM}
+    {src : ClassSrc} (hso : SrcOK src) (hs : PlainSrc src) :
     ∃ N, (∀ m, N ≤ m → renderNodeSrc m r nmeta src = renderNodeSrc N r nmeta src) ∧
       (renderNodeSrc N r nmeta src = .error .fuel →
-        ∃ self bp seen root fin, nodePrefix r nmeta src = .ok (self, bp) ∧
-          renderImpl N r { classes := self.classes, params := bp } [] {} = .ok (seen, root) ∧
-          mergeInto self root = .ok fin ∧ renderParamsF defaultFuel fin.params = .error .fuel) := by
+        ∃ fin : NodeM, fin.OK ∧ renderParamsF defaultFuel fin.params = .error .fuel) := by
   have hg : GoodInv r (r.classes.map (·.1)) (max (maxIncludes r) src.classes.length) :=
     plain_goodInv (plainFiles_plainInv hp) (Nat.le_max_left _ _)
   have hs' : ∀ self, NodeM.ofSrc none src = .ok self →
@@ -711,7 +753,11 @@ theorem renderNodeSrc_settles_plain {r : Inv} (hp : PlainFiles r) {nmeta : MetaM
     intro self hself
     refine ⟨Nat.le_trans (ofSrc_classes_length hself) (Nat.le_max_right _ _), ?_⟩
     exact plain_goodList r self.loc (ofSrc_plain hs hself)
-  exact ⟨_, renderNodeSrc_settles_good hg hs'⟩
+  obtain ⟨h1, h2⟩ := renderNodeSrc_settles_good (nmeta := nmeta) hg hs'
+  refine ⟨_, h1, fun h => ?_⟩
+  obtain ⟨self, bp, seen, root, fin, e1, e2, e3, e4⟩ := h2 h
+  obtain ⟨hself, hbase⟩ := nodePrefix_wfn hso e1
+  exact ⟨fin, mergeInto_wfn hself (renderImpl_wfn hr hbase nodeOK_empty e2) e3, e4⟩
 
 /-! ## 8. Executable checkers for the hypotheses, and a small inventory for non-vacuity -/
 
